@@ -364,6 +364,7 @@ class Link:
         self.serial = next(net.serials)
         self.up = True              # False once cut
         self.blackhole = False      # bytes vanish, nobody is told
+        self.latency = 0.0          # stream links: seconds from flush to arrival
         self.ends = (End(self, "c", client_addr, server_addr),
                      End(self, "s", server_addr, client_addr))
         self.attempt = None
@@ -520,7 +521,14 @@ class Net:
             if link.up and not link.blackhole:
                 if link.tamper:
                     data = link.tamper(peer, data)
-                peer.inflight += data
+                if link.latency:
+                    # propagation delay (constant, so order is kept). Only a
+                    # graceful close is not delayed with it: used where no
+                    # data rides behind a FIN (C16)
+                    self.sim.reactor.callLater(link.latency, self._arrive,
+                                               link, peer, data)
+                else:
+                    peer.inflight += data
         else:
             k = len(end.sendbuf) if limit is None else min(len(end.sendbuf),
                                                            limit)
@@ -544,6 +552,10 @@ class Net:
             if end.alive and end.transport is not None:
                 end.transport._buffer_empty()
         return k
+
+    def _arrive(self, link, peer, data):
+        if link.up and not link.blackhole and peer.alive:
+            peer.inflight += data
 
     def autoflush_all(self):
         n = 0
